@@ -5,7 +5,7 @@ import ast
 
 from ..effects import Effects
 from ..interp import site_of
-from ..model import AnalysisError, norm_stmt
+from ..model import AnalysisError, norm_stmt, walk_no_nested
 from ..report import Ctx
 from . import sector
 from .c05 import facts_to_obs
@@ -144,6 +144,85 @@ def code_state_rule(ctx: Ctx, rule: str) -> None:
     ctx.need(n >= 100, rule, 'panqec/codes', f'only {n} code methods analysed')
 
 
+def deform_dependent_members(model) -> set:
+    """Members of StabilizerCode whose value changes when deform() is applied to the object in place: the names
+    deform() assigns, and (fix-point) every method/property of the base class that reads one of them."""
+    base = model.cls('StabilizerCode')
+    deform = base.methods.get('deform')
+    if deform is None:
+        raise AnalysisError('memo-code', site_of(base.module, base.node), 'StabilizerCode.deform not found')
+    D = set()
+    for n in walk_no_nested(deform):
+        if isinstance(n, ast.Assign):
+            for t in n.targets:
+                if isinstance(t, ast.Attribute) and isinstance(t.value, ast.Name) and t.value.id == 'self':
+                    D.add(t.attr)
+    changed = True
+    while changed:
+        changed = False
+        for name, fn in base.methods.items():
+            if name in D or name in ('deform', '__init__'):
+                continue
+            for n in ast.walk(fn):
+                if isinstance(n, ast.Attribute) and isinstance(n.value, ast.Name) and n.value.id == 'self' and n.attr in D:
+                    D.add(name)
+                    changed = True
+                    break
+    return D
+
+
+def memo_code_rule(ctx: Ctx, rule: str) -> None:
+    """A memoised function keyed on a code object (lru_cache hashes it by identity) must not read anything that
+    deform() changes on that same object: after `code.deform(...)` the entry is stale."""
+    m = ctx.model
+    E = effects(m)
+    D = deform_dependent_members(m)
+    ctx.need({'get_stabilizer', 'stabilizer_matrix', 'Hx', 'Hz', 'is_css'} <= D, rule, 'panqec/codes/base/_stabilizer_code.py',
+             f'deform-dependent members not recognised (found {sorted(D)})')
+    base = m.cls('StabilizerCode')
+    family = {c.name for c in [base] + m.subclasses(base)}
+
+    def reads(fi, pname, depth, seen):
+        out = []
+        if (fi.qual, pname) in seen or depth > 4:
+            return out
+        seen.add((fi.qual, pname))
+        alias = {pname}
+        for n in walk_no_nested(fi.fn):
+            if isinstance(n, ast.Assign) and isinstance(n.value, ast.Name) and n.value.id in alias:
+                alias |= {t.id for t in n.targets if isinstance(t, ast.Name)}
+        for n in ast.walk(fi.fn):
+            if isinstance(n, ast.Attribute) and isinstance(n.value, ast.Name) and n.value.id in alias and n.attr in D:
+                out.append((fi, n))
+        for call, targets, _ in fi.calls:
+            for t in targets:
+                for k, a in enumerate(call.args):
+                    if isinstance(a, ast.Name) and a.id in alias:
+                        off = 1 if (t.ci is not None and isinstance(call.func, ast.Attribute)) else 0
+                        if k + off < len(t.params):
+                            out += reads(t, t.params[k + off], depth + 1, seen)
+                for kw in call.keywords:
+                    if kw.arg and isinstance(kw.value, ast.Name) and kw.value.id in alias and kw.arg in t.params:
+                        out += reads(t, kw.arg, depth + 1, seen)
+        return out
+    cached = [f for f in E.funcs.values() if f.is_cached]
+    for f in sorted(cached, key=lambda f: f.qual):
+        a = f.fn.args
+        for p_ in a.posonlyargs + a.args + a.kwonlyargs:
+            if p_.arg in ('self', 'cls'):
+                continue
+            types = E._ann_class(f.mi, p_.annotation)
+            if not (types & family or (not types and p_.arg == 'code')):
+                continue
+            r = reads(f, p_.arg, 0, set())
+            ok = not r
+            ctx.ob(rule, f.site if ok else f'{r[0][0].mi.relpath}:{r[0][1].lineno}',
+                   f'{f.qual}: memoised on the code object `{p_.arg}` but independent of what deform() changes', ok,
+                   (f'reads {p_.arg}.{r[0][1].attr} (in {r[0][0].qual}); lru_cache keys the code object by identity, so after '
+                    f'`code.deform(...)` on the same object the cached value still describes the code before the '
+                    f'deformation') if r else '', key=f'{f.qual}|memo-code[{p_.arg}]')
+
+
 def class_mutable_rule(ctx: Ctx, rule: str, class_names) -> None:
     """A mutable container defined at class level is shared by all instances: a method may mutate it in place only
     if every constructor rebinds it on the instance first."""
@@ -278,13 +357,16 @@ def run(ctx: Ctx) -> None:
     cached = [f for f in E.funcs.values() if f.is_cached]
     ctx.need(any(f.fn.name == 'probability_distribution' for f in cached), 'R06.2', 'panqec/error_models',
              'positive control failed: the lru_cache on probability_distribution was not recognised')
-    frozen_rule(ctx, 'R06.2')
+    with ctx.part():
+        frozen_rule(ctx, 'R06.2')
     ctx.extra['cached_functions'] = [f.qual for f in cached]
-    cache_key_rule(ctx, 'R06.2')
+    with ctx.part():
+        cache_key_rule(ctx, 'R06.2')
 
     # R06.4
-    facts = [f for f in sector.analyse(m) if f.tag == 'typestate']
-    facts_to_obs(ctx, facts, {'typestate': 'R06.4'})
+    facts = [f for f in sector.analyse(m, only=('BeliefPropagationOSDDecoder',)) if f.tag == 'typestate']
+    with ctx.part():
+        facts_to_obs(ctx, facts, {'typestate': 'R06.4'})
 
     # R06.5
     for cname in ('SweepDecoder3D', 'RotatedSweepDecoder3D'):
